@@ -52,7 +52,7 @@ func rssBytes(pid int) int64 {
 	return n * int64(os.Getpagesize())
 }
 
-const maxWorkerRSS = 6 << 30
+const maxWorkerRSS = 3 << 30
 
 func (d *driver) caseLimit(sub int) float64 {
 	if sub >= 0 && sub < len(d.p.Subs) && d.p.Subs[sub].CaseCPU > 0 {
@@ -321,7 +321,7 @@ func (d *driver) runPhase(race bool, subs []string) {
 			d.extra = append(d.extra, Violation{Sub: sub.Name, Idx: ps.Idx, Sig: "crash", Detail: det})
 		case "timeout":
 			det["cpu_limit_s"] = d.caseLimit(ps.Sub)
-			det["note"] = "the isolated case exceeded its CPU-time (or 6 GiB memory) limit in a fresh process"
+			det["note"] = "the isolated case exceeded its CPU-time (or 3 GiB memory) limit in a fresh process"
 			d.extra = append(d.extra, Violation{Sub: sub.Name, Idx: ps.Idx, Sig: "nontermination", Detail: det})
 			w.timeouts++
 		default:
@@ -363,7 +363,7 @@ func (d *driver) runPhase(race bool, subs []string) {
 			if rssBytes(w.cmd.Process.Pid) > maxWorkerRSS {
 				w.cmd.Process.Kill()
 				<-w.done
-				handleDeath(w, "exceeded 6 GiB of memory")
+				handleDeath(w, "exceeded 3 GiB of memory")
 				continue
 			}
 			if ps.Active && w.lastProg.Active && ps.Sub == w.lastProg.Sub && ps.Idx == w.lastProg.Idx {
